@@ -51,13 +51,13 @@ DOCUMENTED_CHECK_TYPES = ["DistinctCount", "IsUnique"]
 
 
 def rule_builtin_types_are_registered(ctx, rule="O20.2"):
-    """The name-to-class maps are filled from ``base.__subclasses__()``, which lists DIRECT subclasses only: every
-    documented field type and check type must therefore be a class deriving directly from its abstract base."""
+    """Every documented field type and check type is a class deriving (at any depth - the map table O20.2 decides that
+    subclasses of subclasses are registered) from its abstract base."""
     model = ctx.model
     for base_name, suffix, documented in (("cutplace.fields.AbstractFieldFormat", "FieldFormat", DOCUMENTED_FIELD_TYPES),
                                           ("cutplace.checks.AbstractCheck", "Check", DOCUMENTED_CHECK_TYPES)):
         base = model.cls(base_name)
-        direct = {cls.name for cls in model.subclasses(base, direct=True) if cls.module.name.startswith("cutplace.")}
+        direct = {cls.name for cls in model.subclasses(base) if cls.module.name.startswith("cutplace.")}
         for type_name in documented:
             what = "type %s resolves to a registered class" % type_name
             class_name = type_name + suffix
@@ -79,48 +79,46 @@ def rule_class_resolution(ctx):
     model = ctx.model
     ctx.res.minimum("O20.2", 4)
 
-    # (a) the maps are built from __subclasses__() of the two abstract bases, keyed by the plain class name
+    # (a) the maps hold EVERY subclass of the abstract base, keyed by the plain class name - also a user's class that
+    # derives from a built-in one (a subclass of a subclass).  Interpreted on a two-level hierarchy handed out by a
+    # stubbed __subclasses__ (repository classes serve as stand-ins: base -> [first, second], first -> [third]).
     def map_cell(ch):
         base = ch.choose("base", ["cutplace.fields.AbstractFieldFormat", "cutplace.checks.AbstractCheck"])
         suffix = "FieldFormat" if "fields" in base else "Check"
-        builtin = model.subclasses(model.cls(base), direct=True)[0]
-        plugin = [cls for cls in model.subclasses(model.cls(base), direct=True) if cls.module.name == "examples.plugins"]
-        if not plugin:
+        stand_ins = model.subclasses(model.cls(base), direct=True)
+        if len(stand_ins) < 2:
             return None
+        first, second = stand_ins[0], stand_ins[1]
+        third = model.cls("cutplace.errors.Location")  # any third class: only its name is looked at
+        hierarchy = {base: [first, second], first.qualname: [third], second.qualname: [], third.qualname: []}
         asked = []
-
-        def subclasses_hook(interp_, args, kwargs):
-            asked.append(True)
-            return [ClassRef(builtin), ClassRef(plugin[0])]
-
         interp = Interp(model, ch)
-
-        def getattr_hook(interp_, args, kwargs):
-            raise_ = args
-            raise AssertionError
 
         from ..absint import stub
 
-        @stub
-        def subclasses_method(interp_, args, kwargs):
-            asked.append(True)
-            return [ClassRef(builtin), ClassRef(plugin[0])]
+        def subclasses_method(of):
+            @stub
+            def method(interp_, args, kwargs):
+                asked.append(of)
+                return [ClassRef(cls) for cls in hierarchy[of]]
+
+            return method
 
         original_getattr = interp.getattr
 
         def patched_getattr(value, name, node=None):
-            if isinstance(value, ClassRef) and name == "__subclasses__" and value.info.qualname == base:
-                return subclasses_method
+            if isinstance(value, ClassRef) and name == "__subclasses__" and value.info.qualname in hierarchy:
+                return subclasses_method(value.info.qualname)
             return original_getattr(value, name, node)
 
         interp.getattr = patched_getattr
         result = interp.call_function(model.func(CID + "._create_name_to_class_map"), [ClassRef(model.cls(base))], {}, None)
         names = sorted(result) if isinstance(result, dict) else result
-        expected = sorted([builtin.name, plugin[0].name])
+        expected = sorted([first.name, second.name, third.name])
         targets_ok = isinstance(result, dict) and all(isinstance(v, ClassRef) and v.info.name == k for k, v in result.items())
         return ("map of " + suffix, (names, targets_ok, bool(asked)), (expected, True, True))
 
-    decide(ctx, "O20.2", "name-to-class map from __subclasses__()", CID + "._create_name_to_class_map", map_cell, min_cells=2)
+    decide(ctx, "O20.2", "name-to-class map holds subclasses at every depth", CID + "._create_name_to_class_map", map_cell, min_cells=2)
     rule_builtin_types_are_registered(ctx, "O20.2")
 
     # (b) look-up: last dotted part + suffix; unknown -> InterfaceError
@@ -181,6 +179,39 @@ def rule_class_resolution(ctx):
                      "class look-ups use %r" % (lookups,))
 
 
-from .common import rule_module_state  # noqa: E402
+from .common import rule_module_state, rule_undefined_attributes  # noqa: E402
 
-RULES = [rule_hook_protocol, rule_row_protocol, rule_run_protocol, rule_class_resolution, rule_module_state]
+def rule_plugin_folder_is_not_a_pattern(ctx):
+    """O20.4: "supplied by ... a plugin folder": the folder name is data, not a glob pattern - every pattern handed to
+    glob.glob in import_plugins is built from glob.escape(folder)."""
+    import ast
+
+    from ..model import dotted, walk_own
+
+    model = ctx.model
+    info = model.func("cutplace.interface.import_plugins")
+    ctx.res.minimum("O20.4", 1)
+    folder = info.node.args.args[0].arg
+    definitions = {}
+    for node in walk_own(info.node):
+        if isinstance(node, ast.Assign) and len(node.targets) == 1 and isinstance(node.targets[0], ast.Name):
+            definitions[node.targets[0].id] = node.value
+    for node in walk_own(info.node):
+        if isinstance(node, ast.Call) and dotted(node.func) in ("glob.glob", "glob.iglob") and node.args:
+            pattern = node.args[0]
+            while isinstance(pattern, ast.Name) and pattern.id in definitions:
+                pattern = definitions[pattern.id]
+            raw_use = any(isinstance(n, ast.Name) and n.id == folder for n in ast.walk(pattern))
+            escaped = [call for call in ast.walk(pattern) if isinstance(call, ast.Call) and dotted(call.func) == "glob.escape"]
+            raw_outside_escape = raw_use and not any(any(isinstance(n, ast.Name) and n.id == folder for n in ast.walk(call)) for call in escaped) \
+                or any(isinstance(n, ast.Name) and n.id == folder and not any(n in ast.walk(call) for call in escaped) for n in ast.walk(pattern))
+            what = "import_plugins hands glob.glob a pattern with the folder name escaped"
+            if raw_outside_escape:
+                ctx.res.fail("O20.4", what, "interface.import_plugins:O20.4:glob", where_of(model, info.qualname),
+                             "the plugin folder %r becomes part of a glob pattern unescaped: a folder whose name holds [, ], * or ? "
+                             "yields no plugins (and no error)" % folder)
+            else:
+                ctx.res.ok("O20.4", what, True)
+
+
+RULES = [rule_hook_protocol, rule_row_protocol, rule_run_protocol, rule_class_resolution, rule_plugin_folder_is_not_a_pattern, rule_undefined_attributes, rule_module_state]
